@@ -137,6 +137,16 @@ func ReaderFromDelta(base plumbing.EncodedObject, deltaRC io.Reader) (io.ReadClo
 	dstRd, dstWr := io.Pipe()
 
 	go func() {
+		// fail ends the output with err. An io.EOF from the delta or the
+		// base at this point means that stream ended early: passed on as it
+		// is, the consumer would take it for the clean end of the target.
+		fail := func(err error) {
+			if err == io.EOF {
+				err = ErrInvalidDelta
+			}
+			_ = dstWr.CloseWithError(err)
+		}
+
 		baseRd, err := base.Reader()
 		if err != nil {
 			_ = dstWr.CloseWithError(ErrInvalidDelta)
@@ -154,7 +164,7 @@ func ReaderFromDelta(base plumbing.EncodedObject, deltaRC io.Reader) (io.ReadClo
 				return
 			}
 			if err != nil {
-				_ = dstWr.CloseWithError(err)
+				fail(err)
 				return
 			}
 
@@ -162,12 +172,12 @@ func ReaderFromDelta(base plumbing.EncodedObject, deltaRC io.Reader) (io.ReadClo
 			case isCopyFromSrc(cmd):
 				offset, err := decodeOffsetByteReader(cmd, deltaBuf)
 				if err != nil {
-					_ = dstWr.CloseWithError(err)
+					fail(err)
 					return
 				}
 				sz, err := decodeSizeByteReader(cmd, deltaBuf)
 				if err != nil {
-					_ = dstWr.CloseWithError(err)
+					fail(err)
 					return
 				}
 
@@ -192,7 +202,7 @@ func ReaderFromDelta(base plumbing.EncodedObject, deltaRC io.Reader) (io.ReadClo
 				for discard > math.MaxInt32 {
 					n, err := baseBuf.Discard(math.MaxInt32)
 					if err != nil {
-						_ = dstWr.CloseWithError(err)
+						fail(err)
 						return
 					}
 					basePos += uint(n)
@@ -201,7 +211,7 @@ func ReaderFromDelta(base plumbing.EncodedObject, deltaRC io.Reader) (io.ReadClo
 				for discard > 0 {
 					n, err := baseBuf.Discard(int(discard))
 					if err != nil {
-						_ = dstWr.CloseWithError(err)
+						fail(err)
 						return
 					}
 					basePos += uint(n)
@@ -209,7 +219,7 @@ func ReaderFromDelta(base plumbing.EncodedObject, deltaRC io.Reader) (io.ReadClo
 				}
 				n, err := ioutil.CopyBufferPool(dstWr, io.LimitReader(baseBuf, int64(sz)))
 				if err != nil {
-					_ = dstWr.CloseWithError(err)
+					fail(err)
 					return
 				}
 				// A short copy means the base ended early; io.Copy reports
@@ -229,7 +239,7 @@ func ReaderFromDelta(base plumbing.EncodedObject, deltaRC io.Reader) (io.ReadClo
 				}
 				n, err := ioutil.CopyBufferPool(dstWr, io.LimitReader(deltaBuf, int64(sz)))
 				if err != nil {
-					_ = dstWr.CloseWithError(err)
+					fail(err)
 					return
 				}
 				// A truncated literal must not count as written.
@@ -252,7 +262,7 @@ func ReaderFromDelta(base plumbing.EncodedObject, deltaRC io.Reader) (io.ReadClo
 			_ = dstWr.CloseWithError(ErrInvalidDelta)
 			return
 		} else if err != io.EOF {
-			_ = dstWr.CloseWithError(err)
+			fail(err)
 			return
 		}
 
